@@ -32,10 +32,17 @@ func (msg *MsgJoinPool) ValidateBasic() error {
 		return ErrInvalidShareAmountOut
 	}
 
+	// each denom may be listed once: the join calculation treats the list as one entry per pool
+	// asset, so a denom listed twice stands in for an asset that is never deposited
+	seenDenoms := make(map[string]struct{}, len(msg.MaxAmountsIn))
 	for _, coin := range msg.MaxAmountsIn {
 		if err = coin.Validate(); err != nil {
 			return err
 		}
+		if _, dup := seenDenoms[coin.Denom]; dup {
+			return errorsmod.Wrapf(sdkerrors.ErrInvalidCoins, "duplicate denom %s in max amounts in", coin.Denom)
+		}
+		seenDenoms[coin.Denom] = struct{}{}
 	}
 
 	return nil
